@@ -333,8 +333,13 @@ int (*div_array[])(void *, number, int) = { idiv, ddiv, zdiv };
 static int mtx_irem(void *dest, number a, int n) {
   if (a.i==0) PY_ERR_INT(PyExc_ZeroDivisionError, "division by zero");
   int i;
-  for (i=0; i<n; i++)
-    ((int_t *)dest)[i] %= a.i;
+  for (i=0; i<n; i++) {
+    /* Python convention: the result has the sign of the divisor;
+       x % -1 is 0 (and INT_MIN % -1 must not reach the hardware) */
+    int_t r = (a.i == -1) ? 0 : ((int_t *)dest)[i] % a.i;
+    if (r && ((r < 0) != (a.i < 0))) r += a.i;
+    ((int_t *)dest)[i] = r;
+  }
 
   return 0;
 }
